@@ -30,9 +30,47 @@ def configs(tier):
     return out
 
 
+def litcond_programs():
+    """Conditions made of literals only (they fold to a constant, then the dead-code pass decides on it): every falsy and
+    truthy special value x every statement form with observable branches and operands with observable coercions."""
+    import jscore as J
+    I, S, n = J.ident, J.string, J.num
+    nan = J.binary("/", n(0), n(0))
+    conds = {
+        "nan-div": nan, "nan-str": J.unary("+", S("abc")), "nan-mul": J.binary("*", S("x"), n(2)), "nan-sub": J.binary("-", J.undef(), n(1)),
+        "negzero": J.unary("-", n(0)), "zero": n(0), "zero-mul": J.binary("*", n(0), J.unary("-", n(1))), "empty": S(""), "str0": S("0"), "space": S(" "),
+        "null": J.null(), "undef": J.undef(), "void": J.unary("void", n(1)), "not0": J.unary("!", n(0)), "notnot-empty": J.unary("!", J.unary("!", S(""))),
+        "inf": J.binary("/", n(1), n(0)), "ninf": J.binary("/", J.unary("-", n(1)), n(0)), "inf-inf": J.binary("-", J.binary("/", n(1), n(0)), J.binary("/", n(1), n(0))),
+        "one": n(1), "true": J.boolean(True), "false": J.boolean(False), "cmp-nan": J.binary("<", nan, n(1)), "eq-nan": J.binary("===", nan, nan),
+        "typeof": J.binary("===", J.unary("typeof", n(1)), S("number")), "coalesce": J.logical("??", J.null(), n(0)), "and": J.logical("&&", n(1), S("")),
+        "or": J.logical("||", n(0), nan), "concat": J.binary("+", S(""), S("")), "mod": J.binary("%", n(5), n(0)), "shift": J.binary("<<", n(1), n(32)),
+        "bitor-nan": J.binary("|", nan, n(0)), "neg-nan": J.unary("-", nan), "pow": J.binary("**", n(0), n(0)),
+    }
+    obs = J.let("o", J.obj(J.prop("valueOf", J.fn([], [J.print_(S("valueOf")), J.return_(n(2))]))))
+    out = []
+    for cn, c in conds.items():
+        forms = {
+            "if-else": [J.if_(c, J.block(J.print_(S("then"), I("o"))), J.block(J.print_(S("else"), J.binary("*", I("o"), n(2)))))],
+            "if": [J.print_(S("pre")), J.if_(c, J.print_(S("then"))), J.print_(S("post"))],
+            "cond": [J.print_(J.cond(c, J.binary("+", I("o"), n(1)), J.binary("-", I("o"), n(1))))],
+            "while": [J.let("k", n(0)), J.while_(c, J.block(J.print_(S("body")), J.expr(J.update("++", False, I("k"))), J.if_(J.binary(">", I("k"), n(1)), J.break_())))],
+            "for": [J.for_(J.let("k", n(0)), J.logical("&&", c, J.binary("<", I("k"), n(2))), J.update("++", False, I("k")), J.print_(S("for"), I("k")))],
+            "dowhile": [J.let("k", n(0)), J.dowhile(J.block(J.print_(S("do")), J.expr(J.update("++", False, I("k")))), J.logical("&&", c, J.binary("<", I("k"), n(2))))],
+            "and": [J.expr(J.logical("&&", c, J.call(I("t"), S("rhs"))))],
+            "or": [J.expr(J.logical("||", c, J.call(I("t"), S("rhs"))))],
+            "not-if": [J.if_(J.unary("!", c), J.print_(S("neg")), J.print_(S("pos")))],
+            "value": [J.print_(c, J.unary("typeof", c))],
+        }
+        for fn_, body in forms.items():
+            prog = [J.function("t", J.params("x"), [J.print_(S("t"), I("x")), J.return_(I("x"))]), obs] + body
+            out.append(("litcond/%s/%s" % (cn, fn_), J.program(prog)))
+    return out
+
+
 def spec(tier):
     s = cfgdiff.Spec("C05", configs(tier), "off", "c05", "optimizer disabled", {"quick": 350, "thorough": 1500})
     s.quick_grid, s.quick_corpus = 400, 200
+    s.extra_items = litcond_programs()
     return s
 
 
